@@ -4,17 +4,21 @@ LEVEL = "exploration"
 RULE = ("odometer enumeration (no randomness), every input in an exact-size heap block (empty input: one-past-the-end pointer "
         "and the NULL,0 view). Per parser (a) ALL strings up to length n over the bytes its control flow distinguishes and "
         "(b) the single / double edit neighbourhood {delete i, truncate to i, duplicate i, substitute (i,s), insert (i,s)} of "
-        "well-formed templates. XML (aws_xml_parse): 10 symbols, n<=5 quick / 6 thorough, 16 templates (preamble, doctype, "
+        "well-formed templates. XML (aws_xml_parse): 10 symbols, n<=6 quick / 7 thorough, 16 templates (preamble, doctype, "
         "attributes x10/x11, depth 20/21, name length 256/257, max_depth option, self-closing, '>' inside text), each under 6 "
         "callback policies {skip, body, descend, descend-then-abort, descend-root-then-body, descend-root-then-skip}. JSON: 18 "
-        "symbols, n<=4/5, 22 templates incl. array/object nesting 1000/1001, surrogates, raw UTF-8. CBOR decoder: every first "
+        "symbols, n<=5/6, 22 templates incl. array/object nesting 1000/1001, surrogates, raw UTF-8. CBOR decoder: every first "
         "byte 0x00-0xFF x followers from 16 bytes, total length <=4/5, 22 templates (indefinite/definite nesting and tag chains 8/64/1024, "
         "4096 in the thorough tier; 2^64-1 counts); per input every decoder operation as first call on a fresh decoder, then a typed peek+pop walk, a "
-        "consume_whole loop and a consume_single loop. URI + query iteration + percent-decoding: 13 symbols, n<=5/6, 8 "
-        "templates. date-time: 17 symbols, n<=4/5, 30 templates (length 100/101 included), each input x 4 format selectors x "
-        "{byte_buf, cursor} entry point. UUID/IPv4/IPv6(zone, uri-encoded): 11 symbols, n<=5/6, 10 templates. unsigned parse "
-        "(base 10/16): 16 symbols, n<=4/5, 4 boundary templates. base64/hex decode and one-shot UTF-8 on the shipped (AVX2) and "
-        "the portable compilation, output in an exact-size block of the predicted length and one byte less. "
+        "consume_whole loop and a consume_single loop; plus section cbor_deep: arrays / tags / indefinite arrays / one-pair maps "
+        "nested 2^10..2^18 deep (CBOR documents no nesting limit) on the default 8 MiB stack. URI + query iteration + percent-decoding: 13 symbols, n<=6/7, 8 "
+        "templates. date-time: 17 symbols, n<=5/6, 30 templates (length 100/101 included), each input x 4 format selectors x "
+        "{byte_buf, cursor} entry point. UUID/IPv4/IPv6(zone, uri-encoded): 11 symbols, n<=6/7, 10 templates. unsigned parse "
+        "(base 10/16): 16 symbols, n<=5/6, 4 boundary templates. base64/hex decode and one-shot UTF-8 on the shipped (AVX2) and "
+        "the portable compilation (base64: all strings <=5 over 9 symbols, 8/9/12-character strings over 5, vector-body templates "
+        "of 32..68 characters; hex: 16 symbols n<=5/6; UTF-8: 21 boundary bytes n<=4/5), output in an exact-size block of the "
+        "predicted length and one byte less. Double edits: all templates up to ~40 bytes (quick: a subset for JSON/CBOR/date), "
+        "single edits for the long ones, delete/truncate/duplicate only for the 1000-level JSON and >=1024-level CBOR templates. "
         "non-trivial = XML: at least one node reached a callback; JSON: document accepted; CBOR: at least one decoder call "
         "succeeded; URI: URI accepted, or query iteration yielded a parameter, or a %XX was decoded; date/UUID/IP/unsigned/"
         "base64/hex/UTF-8: accepted by at least one selector / recogniser / path (UTF-8: non-empty).")
